@@ -300,7 +300,24 @@ def _fill(msg: Any, fields: dict) -> None:
             setattr(msg, k, _scalar(fd, v))
 
 
+def gen_bytes(n: int, seed: Any) -> bytes:
+    """Deterministic pseudo-random bytes (keeps scenario documents small)."""
+    import hashlib
+
+    out = bytearray()
+    i = 0
+    while len(out) < n:
+        out += hashlib.sha256(f"{seed}:{i}".encode()).digest()
+        i += 1
+    return bytes(out[:n])
+
+
 def _scalar(fd: Any, v: Any) -> Any:
+    if isinstance(v, dict) and "gen" in v:
+        b = gen_bytes(v["gen"][0], v["gen"][1])
+        if fd.type == fd.TYPE_BYTES:
+            return b
+        return b.hex()[: v["gen"][0]]
     if fd.type == fd.TYPE_BYTES:
         if isinstance(v, str):
             return bytes.fromhex(v)
@@ -577,7 +594,10 @@ class SimDevice:
         """item = [name, fields] | {"type": id, "payload_hex": ...} -> (frame bytes, meta)"""
         if isinstance(item, dict):
             mtype = item["type"]
-            payload = bytes.fromhex(item.get("payload_hex", ""))
+            if "payload_gen" in item:
+                payload = gen_bytes(item["payload_gen"][0], item["payload_gen"][1])
+            else:
+                payload = bytes.fromhex(item.get("payload_hex", ""))
             name = item.get("name", self.table.by_id.get(mtype, f"#type{mtype}"))
         else:
             name, fields = item[0], (item[1] if len(item) > 1 else {})
@@ -595,23 +615,81 @@ class SimDevice:
         return wire.plain_frame(mtype, payload), meta
 
     def send_msgs(self, conn: SimConn, items: list, split: bool = False, latency: float | None = None) -> None:
-        out = b""
-        metas = []
+        frames = []
         for it in items:
             b, meta = self.encode(conn, it)
-            b, meta = self._tamper(conn, b, meta)
-            if b is None:
-                continue
-            if split:
+            frames.append((b, meta))
+        self._out(conn, frames, split, latency)
+
+    def _emit_raw(self, conn: SimConn, b: bytes, meta: dict, latency: float | None = None) -> None:
+        self._out(conn, [(b, meta)], False, latency)
+
+    def _out(self, conn: SimConn, frames: list, split: bool, latency: float | None) -> None:
+        """Every outgoing device frame passes here: numbering, tamper layer, emission."""
+        st = conn.dstate
+        tamper = self.cfg.get("tamper") or []
+        if isinstance(tamper, dict):
+            tamper = [tamper]
+        outl: list = []
+        for b, meta in frames:
+            j = st["out_idx"]
+            st["out_idx"] = j + 1
+            meta["out_idx"] = j
+            meta["wire"] = b
+            emitted = [(b, meta)]
+            for t in tamper:
+                if t.get("frame") != j:
+                    continue
+                kind = t["kind"]
+                self.world.fire("tamper_" + kind)
+                meta["tampered"] = kind
+                if kind == "flip":
+                    ba = bytearray(b)
+                    pos = t["pos"] % len(ba)
+                    ba[pos] ^= t.get("mask", 1)
+                    meta["tamper_pos"] = pos
+                    emitted = [(bytes(ba), meta)]
+                elif kind == "truncate":
+                    n = min(t["len"], len(b))
+                    meta["tamper_len"] = n
+                    emitted = [(b[:n], meta)] if n else []
+                    if not n:
+                        meta["dropped"] = True
+                elif kind == "drop":
+                    emitted = []
+                    meta["dropped"] = True
+                elif kind == "dup":
+                    m2 = dict(meta)
+                    m2["replay"] = True
+                    emitted = [(b, meta), (b, m2)]
+                elif kind == "swap":
+                    st["held"] = (b, meta)
+                    emitted = []
+            held = st.get("held")
+            if held is not None and held[1] is not meta:
+                st.pop("held")
+                emitted = emitted + [held]
+            outl.extend(emitted)
+            if meta.get("dropped"):
+                self.world.rec("dev_tx", conn=conn.cid, idx=-1, name=meta["name"], type=meta.get("type"), payload=meta.get("payload", b""), tampered=meta.get("tampered"), end=-1, kind=meta.get("kind"), out_idx=j, dropped=True)
+        if not outl:
+            return
+        if split:
+            for b, meta in outl:
                 self._push(conn, b, [meta], latency)
-            else:
-                meta["end"] = conn.d2c_off + len(out) + len(b)
-                out += b
-                metas.append(meta)
-        if out:
-            conn.device_send(out, metas, latency)
-            for m in metas:
-                self.world.rec("dev_tx", conn=conn.cid, idx=m["idx"], name=m["name"], type=m.get("type"), payload=m.get("payload", b""), tampered=m.get("tampered"), end=m["end"], kind=m.get("kind"))
+            return
+        data = b""
+        metas = []
+        for b, meta in outl:
+            meta["end"] = conn.d2c_off + len(data) + len(b)
+            data += b
+            metas.append(meta)
+        conn.device_send(data, metas, latency)
+        for m in metas:
+            self._rec_tx(conn, m)
+
+    def _rec_tx(self, conn: SimConn, m: dict) -> None:
+        self.world.rec("dev_tx", conn=conn.cid, idx=m["idx"], name=m["name"], type=m.get("type"), payload=m.get("payload", b""), tampered=m.get("tampered"), end=m["end"], kind=m.get("kind"), out_idx=m.get("out_idx"), replay=bool(m.get("replay")), tamper_pos=m.get("tamper_pos"), wire_len=len(m.get("wire", b"")))
 
     def _push(self, conn: SimConn, b: bytes, metas: list[dict], latency: float | None = None) -> None:
         off = conn.d2c_off
@@ -619,53 +697,4 @@ class SimDevice:
             m["end"] = off + len(b)
         conn.device_send(b, metas, latency)
         for m in metas:
-            self.world.rec("dev_tx", conn=conn.cid, idx=m["idx"], name=m["name"], type=m.get("type"), payload=m.get("payload", b""), tampered=m.get("tampered"), end=m["end"], kind=m.get("kind"))
-
-    def _emit_raw(self, conn: SimConn, b: bytes, meta: dict, latency: float | None = None) -> None:
-        b2, meta = self._tamper(conn, b, meta)
-        if b2 is None:
-            return
-        self._push(conn, b2, [meta], latency)
-
-    # tamper layer (C04) ----------------------------------------------------------------
-    def _tamper(self, conn: SimConn, b: bytes, meta: dict) -> tuple[bytes | None, dict]:
-        """Apply scenario tamper actions addressed to outgoing frame #j of this connection."""
-        st = conn.dstate
-        j = st["out_idx"]
-        st["out_idx"] = j + 1
-        meta["out_idx"] = j
-        held = st.pop("held", None)
-        for t in self.cfg.get("tamper", []):
-            if t.get("frame") != j:
-                continue
-            kind = t["kind"]
-            self.world.fire("tamper_" + kind)
-            meta["tampered"] = kind
-            if kind == "flip":
-                ba = bytearray(b)
-                pos = t["pos"] % len(ba)
-                ba[pos] ^= t.get("mask", 1)
-                b = bytes(ba)
-                meta["tamper_pos"] = pos
-            elif kind == "truncate":
-                b = b[: t["len"]]
-            elif kind == "drop":
-                b = b""
-            elif kind == "dup":
-                b = b + b
-            elif kind == "swap":
-                # hold this frame and emit it after the next one
-                st["held"] = (b, meta)
-                return None, meta
-            elif kind == "rekey":
-                pass
-        if held is not None:
-            hb, hmeta = held
-            # emit current first, then the held one
-            self._push(conn, b, [meta])
-            hmeta["tampered"] = "swap"
-            self._push(conn, hb, [hmeta])
-            return None, meta
-        if b == b"":
-            return None, meta
-        return b, meta
+            self._rec_tx(conn, m)
